@@ -101,10 +101,14 @@ def accCase (j : Json) : Option String := do
   let accept ← getNat j "accept"
   let states ← (← arr? j "states").mapM natList?
   let res ← (match j.getObjVal? "res" with | .ok v => (if v.isNull then some [] else natList? v) | .error _ => some [])
-  let sts ← states.mapM (fun s => match s with | [id, u, m] => some (id, u != 0, m != 0) | _ => none)
-  let exp := (sts.filter (fun s => tagAcceptSpec accept s.2.1 s.2.2)).map (·.1)
-  let tab := (sts.filter (fun s => tagAccept accept s.2.1 s.2.2)).map (·.1)
-  return s!"acc exp={idsStr exp} tab={idsStr tab} same={b01 (exp == res && tab == res)}"
+  let hasU := getBool j "hasu"
+  let sts ← states.mapM (fun s => match s with
+    | [id, u, m, r, d] => some (id, u != 0, m != 0, r != 0, d != 0) | _ => none)
+  let exp := (sts.filter (fun s => tagAcceptSpec accept s.2.1 s.2.2.1)).map (·.1)
+  let tab := (sts.filter (fun s => tagAccept accept s.2.1 s.2.2.1)).map (·.1)
+  -- the inlining of the tag's definition as the search performs it, on the RECORDED answers
+  let inl := (sts.filter (fun s => inlinedAccept hasU accept s.2.1 s.2.2.2.1 s.2.2.2.2)).map (·.1)
+  return s!"acc exp={idsStr exp} tab={idsStr tab} inl={idsStr inl} same={b01 (exp == res && tab == res && inl == res)}"
 
 def step (_ : Unit) (line : String) : Unit × String :=
   match Json.parse line with
